@@ -1,17 +1,20 @@
 #!/usr/bin/env bash
-# libFuzzer campaign for C07: 16 processes, each a fixed -runs on its own copy of the seed
-# corpus (8 from the committed/generated seeds, 8 from an empty corpus), -seed derived from
-# VERIF_SEED. A crash (sanitizer report or failed oracle) leaves an artifact which becomes
-# the replay file. Writes a small JSON report.
+# fuzz-stage.sh <target: seq|gc> <property> <VERIF_SEED> <report.json>
+# libFuzzer campaign: 16 processes of fuzz/<target>, each a fixed -runs on its own corpus
+# directory (8 start from 200 generated seed inputs, 8 from an empty corpus), -seed derived
+# from VERIF_SEED. A crash (sanitizer report or failed oracle) leaves an artifact which
+# becomes the replay file. Writes a small JSON report. Exit 0/1/2.
 set -u
-SEED="$1"; OUT="$2"
+TARGET="$1"; PROP="$2"; SEED="$3"; OUT="$4"
 cd /verif
-BIN=/verif/fuzz/target/x86_64-unknown-linux-gnu/release/seq
-RUNS="${C07_FUZZ_RUNS:-40000}"
-W=$(mktemp -d /dev/shm/c07fuzz-XXXXXX 2>/dev/null || mktemp -d /verif/target/c07fuzz-XXXXXX)
-mkdir -p "$W/seeds" /verif/replays/C07/found
-VERIF_SEED="$SEED" ./target/checked/svcheck gen-corpus "$W/seeds" 200 || exit 2
-[ -d /verif/fuzz/seeds/seq ] && cp /verif/fuzz/seeds/seq/* "$W/seeds/" 2>/dev/null
+BIN=/verif/fuzz/target/x86_64-unknown-linux-gnu/release/$TARGET
+RUNS="${FUZZ_RUNS:-40000}"
+export SVFUZZ_PROP="$PROP"
+export ASAN_OPTIONS=detect_leaks=0:abort_on_error=1:symbolize=1
+W=$(mktemp -d /dev/shm/svfuzz-XXXXXX 2>/dev/null || mktemp -d /verif/target/svfuzz-XXXXXX)
+mkdir -p "$W/seeds" /verif/replays/$PROP/found
+KIND=""; [ "$TARGET" = gc ] && KIND=gc
+VERIF_SEED="$SEED" ./target/checked/svcheck gen-corpus "$W/seeds" 200 $KIND || exit 2
 pids=()
 for i in $(seq 0 15); do
   mkdir -p "$W/c$i" "$W/a$i"
@@ -28,10 +31,10 @@ for i in $(seq 0 15); do
   if [ "$code" -ne 0 ]; then
     art=$(ls "$W/a$i"/crash-* "$W/a$i"/oom-* "$W/a$i"/timeout-* 2>/dev/null | head -1)
     if [ -n "$art" ] && [[ "$art" == *crash-* ]]; then
-      dst=/verif/replays/C07/found/fuzz-$(basename "$art")
+      dst=/verif/replays/$PROP/found/fuzz-$(basename "$art")
       cp "$art" "$dst"
-      echo "VIOLATION property=C07 replay=$dst"
-      grep -a -m3 -E 'ERROR: AddressSanitizer|C07 oracle failed|SUMMARY' "$W/log$i" | sed 's/^/  /'
+      echo "VIOLATION property=$PROP replay=$dst"
+      grep -a -m3 -E 'ERROR: AddressSanitizer|oracle failed|SUMMARY' "$W/log$i" | sed 's/^/  /'
       fail=1
     else
       echo "INCONCLUSIVE: fuzz process $i ended with $code without a crash artifact (oom/timeout/infrastructure)" >&2
@@ -45,7 +48,7 @@ files=$(ls "$W"/c*/ 2>/dev/null | wc -l)
 sample=$(ls "$W/c0" | head -1)
 samplehex=$(head -c 64 "$W/c0/$sample" 2>/dev/null | od -An -tx1 | tr -d ' \n')
 cat > "$OUT" <<JSON
-{"engine": "libfuzzer-seq", "processes": 16, "runs_per_process": $RUNS, "executed_units": $execs,
+{"engine": "libfuzzer-'"$TARGET"'", "property": "'"$PROP"'", "processes": 16, "runs_per_process": $RUNS, "executed_units": $execs,
  "corpus_files_at_end": $files, "corpus_bytes_at_end": $corp, "crashes": $fail,
  "sample_input_hex_prefix": "$samplehex", "seed": $SEED}
 JSON
